@@ -150,3 +150,110 @@ func ruleListItemChildCoverage(c *eng.Ctx) {
 			"text of "+strings.Join(lost, ", ")+" children of a list item is neither part of the item's text (getDirectTextContent leaves them out) nor traversed by the li case: it is lost")
 	}
 }
+
+// R19.11 [C19]
+func ruleTableSections(c *eng.Ctx) {
+	const R = "R19.11-TABLE-SECTIONS"
+	c.Rule(R, "HTML table model: parseTable hands the rows of every row group (thead, tbody, tfoot) and direct tr children to the row parser, a row group hands over its tr children, and a row turns both td and th into cells: a group or cell kind without a branch loses the text of its cells", 3, 0)
+	root := c.P.Func("htmldoc.(*Reader).parseTable")
+	if root == nil {
+		c.Undec(R, "htmldoc.(*Reader).parseTable", token.NoPos, "anchor not found")
+		return
+	}
+	elem, ok := htmlConst(root, "ElementNode")
+	if !ok {
+		c.Undec(R, "htmldoc.(*Reader).parseTable", root.Pos(), "html.ElementNode not found")
+		return
+	}
+	storesCell := func(in ssa.Instruction) bool {
+		st, ok := in.(*ssa.Store)
+		if !ok {
+			return false
+		}
+		fr, ok := eng.AsField(st.Addr)
+		return ok && fr.Field == "Text" && strings.HasSuffix(fr.Struct, "htmldoc.TableCell")
+	}
+	direct := func(f *ssa.Function) bool {
+		found := false
+		eng.Instrs(f, false, func(in ssa.Instruction) {
+			if storesCell(in) {
+				found = true
+			}
+		})
+		return found
+	}
+	var builds func(f *ssa.Function, d int) bool
+	builds = func(f *ssa.Function, d int) bool {
+		if f == nil || f.Blocks == nil || f.Pkg != root.Pkg || d > 2 {
+			return false
+		}
+		if direct(f) {
+			return true
+		}
+		for _, ci := range eng.Calls(f, false, func(string, ssa.CallInstruction) bool { return true }) {
+			if cal := ci.Common().StaticCallee(); cal != f && builds(cal, d+1) {
+				return true
+			}
+		}
+		return false
+	}
+	for _, f := range eng.Cluster(root, 2) {
+		var self ssa.Value
+		for _, p := range f.Params {
+			if strings.HasSuffix(eng.TypeName(p.Type()), "html.Node") {
+				self = p
+				break
+			}
+		}
+		if self == nil || !builds(f, 0) {
+			continue
+		}
+		isChild := func(v ssa.Value) bool {
+			base, ok := htmlNodeField(v, "Data")
+			return ok && base != self
+		}
+		leaf := func(v ssa.Value, si *eng.StrIntern) (int64, bool) {
+			if _, ok := htmlNodeField(v, "Type"); ok {
+				return elem, true
+			}
+			return 0, false
+		}
+		var want []string
+		var target func(ssa.Instruction) bool
+		switch {
+		case direct(f):
+			want = []string{"td", "th"}
+			target = storesCell
+		default:
+			want = []string{"tr"}
+			if f == root {
+				want = []string{"thead", "tbody", "tfoot", "tr"}
+			}
+			target = func(in ssa.Instruction) bool {
+				ci, ok := in.(ssa.CallInstruction)
+				if !ok {
+					return false
+				}
+				cal := ci.Common().StaticCallee()
+				if cal == nil || cal == f || !builds(cal, 0) {
+					return false
+				}
+				for _, a := range ci.Common().Args {
+					if a == self {
+						return false
+					}
+				}
+				return true
+			}
+		}
+		got := eng.StrReach(f, want, isChild, leaf, target)
+		var lost []string
+		for _, t := range want {
+			if !got[t] {
+				lost = append(lost, "<"+t+">")
+			}
+		}
+		c.Check(len(lost) == 0, R, eng.FuncName(f)+"#children", f.Pos(), "handles "+strings.Join(want, ", "),
+			"no branch for "+strings.Join(lost, ", ")+" children: the text of the table cells below them is never returned")
+	}
+}
